@@ -172,3 +172,67 @@ func VerifC24_sequence() {
 	sym.Assert(post.CurrentRedeemed <= post.TotalLimit, "the assigner's total redeemed amount never exceeds its total limit")
 	sym.Assert(len(post.RedeemedNonces) == len(nonces), "exactly the granted nonces are recorded")
 }
+
+// VerifC24_reregister: the owner registers an assigner (real add_free_storage_assigner), a
+// marker is redeemed, then the owner re-registers the assigner - with the same key, with
+// another key, or with another key and then the first key again - possibly with new limits;
+// the redeemed marker presented again must still be rejected and the redeemed total kept.
+func VerifC24_reregister() {
+	w := vWNew(2, vWClient, 0)
+	k1 := encryption.NewBLS0ChainScheme()
+	if err := k1.GenerateKeys(); err != nil {
+		panic(err)
+	}
+	k2 := encryption.NewBLS0ChainScheme()
+	if err := k2.GenerateKeys(); err != nil {
+		panic(err)
+	}
+	register := func(pk string, individual, total float64) error {
+		in, _ := json.Marshal(&newFreeStorageAssignerInfo{Name: "assigner", PublicKey: pk, IndividualLimit: individual, TotalLimit: total})
+		t := *w.txn
+		t.ClientID = vWOwner
+		_, err := w.ssc.addFreeStorageAssigner(&t, in, w.balances)
+		return err
+	}
+	if err := register(k1.GetPublicKey(), 2, 10); err != nil {
+		panic("registration: " + err.Error())
+	}
+	m := &freeStorageMarker{Assigner: "assigner", Recipient: vWClient, Nonce: sym.I64("nonce"), Blobbers: vWBlobbers[:2], FreeTokens: 1}
+	vC24Sign(k1, m)
+	mb, _ := json.Marshal(m)
+	input, _ := json.Marshal(&freeStorageAllocationInput{RecipientPublicKey: "pk-client", Marker: string(mb), Blobbers: m.Blobbers})
+	if _, err := w.ssc.freeAllocationRequest(w.txn, input, w.balances); err != nil {
+		panic("first redemption: " + err.Error())
+	}
+	a1, _ := w.ssc.getFreeStorageAssigner("assigner", w.balances)
+	redeemed := a1.CurrentRedeemed
+
+	switch sym.Choice("reregistration", 0, 3) {
+	case 0: // none
+	case 1: // same key, new limits
+		if err := register(k1.GetPublicKey(), 3, 20); err != nil {
+			panic(err)
+		}
+	case 2: // key rotated
+		if err := register(k2.GetPublicKey(), 2, 10); err != nil {
+			panic(err)
+		}
+	case 3: // key rotated and rolled back
+		if err := register(k2.GetPublicKey(), 2, 10); err != nil {
+			panic(err)
+		}
+		if err := register(k1.GetPublicKey(), 2, 10); err != nil {
+			panic(err)
+		}
+	}
+	sym.Cover("reregistered")
+	a2, err := w.ssc.getFreeStorageAssigner("assigner", w.balances)
+	if err != nil {
+		sym.Fail("the assigner record stays readable")
+		return
+	}
+	sym.Assert(a2.CurrentRedeemed == redeemed && vC24Has(a2.RedeemedNonces, m.Nonce), "re-registering an assigner keeps what it has already redeemed")
+	w.txn.Hash = "aaaaaaaaaaaaaaaaaaaaaaaaaaaaaaaaaaaaaaaaaaaaaaaaaaaaaaaaaaaaaaa2"
+	_, rerr := w.ssc.freeAllocationRequest(w.txn, input, w.balances)
+	sym.Assert(rerr != nil, "a redeemed marker stays redeemed whatever the owner re-registers")
+}
